@@ -17,7 +17,7 @@ Extraction Language OCaml.
 Extraction "model.ml" dispatch.
 EOV
 cd "$W"
-coqc -Q /verif/coq/theories NGS X.v > /dev/null
+coqc -Q /verif/coq/theories NGS -Q /verif/coq/generated NGSGen X.v > /dev/null
 cp /verif/ocaml/driver.ml .
 ocamlfind ocamlopt -O3 -package zarith -linkpkg -w -a model.mli model.ml driver.ml -o "$OUT"
 echo "built $OUT"
